@@ -87,19 +87,20 @@ Definition links_ok (s : fs) : Prop :=
 
 (* a check routine that succeeds -- leaving the descriptor table as it was -- whenever
    [cur] is open on the object whose path below the root is [exp] *)
-Definition chk_static_ok (s : fs) (chk : Z -> Z -> list bytes -> prog (result unit ekind)) : Prop :=
+Definition chk_static_ok (s : fs) (rp : bytes) (chk : Z -> Z -> list bytes -> prog (result unit ekind)) : Prop :=
   forall t cur root exp o,
     tget t root = Some ROOT -> tget t cur = Some o -> FSModel.descend s ROOT exp = Some o ->
-    run s t (chk cur root exp) = Done t (Ok tt).
+    run s rp t (chk cur root exp) = Done t (Ok tt).
 
 (* ---- running programs ---------------------------------------------------------------- *)
 
 Section SP.
 Variable s : fs.
+Variable rp : bytes.        (* the kernel's rendering of the root directory *)
 Variable fz : nat.
 Hypothesis Hfz : fz <> 0%nat.
 
-Notation run := (run s).
+Notation run := (run s rp).
 
 Lemma run_bind {A B} (p : prog A) (f : A -> prog B) : forall t,
   run t (bind p f) = match run t p with
@@ -109,7 +110,7 @@ Lemma run_bind {A B} (p : prog A) (f : A -> prog B) : forall t,
                      end.
 Proof.
   induction p as [a|c k IH| |]; intro t; cbn [bind Static.run]; try reflexivity.
-  destruct (answer s t c) as [t' r]. apply IH.
+  destruct (answer s rp t c) as [t' r]. apply IH.
 Qed.
 
 Lemma run_frozen t fd : run t (frozen fz fd) = Done t tt.
@@ -162,12 +163,21 @@ Proof.
   unfold answer. cbn [sem]. rewrite Hfd, Hb. cbn [is_nil negb as_bytes]. rewrite Hlen. reflexivity.
 Qed.
 
-Lemma run_is_magiclink t fd o :
-  tget t fd = Some o -> run t (is_magiclink_filesystem fz fd) = Done t (Ok false).
+(* objects of the tree are numbered below the procfs objects *)
+Lemma link_lt o body : FSModel.link_body s o = Some body -> (o < PB s)%nat.
 Proof.
-  intro Hfd. unfold is_magiclink_filesystem, bindR, os, map_err, w_fstatfs.
+  unfold FSModel.link_body, FSModel.kind_of, PB. intro H.
+  destruct (Nat.lt_ge_cases o (length (FSModel.kinds s))) as [Hlt|Hge]; [exact Hlt|].
+  rewrite (nth_overflow _ _ Hge) in H. discriminate.
+Qed.
+
+Lemma run_is_magiclink t fd o :
+  tget t fd = Some o -> (o < PB s)%nat -> run t (is_magiclink_filesystem fz fd) = Done t (Ok false).
+Proof.
+  intros Hfd Hlt. unfold is_magiclink_filesystem, bindR, os, map_err, w_fstatfs.
   rewrite (tget_valid _ _ _ Hfd). cbn [negb bind Static.run].
-  unfold answer. cbn [sem]. rewrite Hfd. reflexivity.
+  unfold answer. cbn [sem]. rewrite Hfd.
+  destruct (Nat.leb_spec (PB s) o) as [Hle|_]; [lia|]. reflexivity.
 Qed.
 
 Lemma run_close t fd : run t (close fd) = Done (tdel t fd) tt.
@@ -328,7 +338,7 @@ Proof. intros (t' & w & -> & H). exists t', w. split; [reflexivity|exact H]. Qed
 (* ---- the check routine: any routine that succeeds when the walk is where it believes to be *)
 
 Variable chk : Z -> Z -> list bytes -> prog (result unit ekind).
-Hypothesis chk_ok : chk_static_ok s chk.
+Hypothesis chk_ok : chk_static_ok s rp chk.
 
 Lemma run_final_check t root cur exp refs o :
   InvFd t root cur refs o -> FSModel.descend s ROOT exp = Some o ->
@@ -501,7 +511,7 @@ Proof.
   assert (Hgood : Forall good (raw_components body ++ rest)) by (apply Forall_app; split; [apply good_components, Hbnul|exact Hrest]).
   rewrite run_bind.
   destruct (is_abs body) eqn:Eabs.
-  - rewrite (run_is_magiclink t1 nx d Hn1).
+  - rewrite (run_is_magiclink t1 nx d Hn1 (link_lt d body Hb)).
     destruct (run_set_cur_root t1 root cur (pop_exp expn) refs o [] Hinv1) as (t2 & refs2 & Hrun & Hinv2 & Hsame).
     rewrite run_bind. unfold mk in Hrun. rewrite Hrun.
     rewrite run_bind, run_close.
@@ -668,32 +678,32 @@ Proof. reflexivity. Qed.
 (* ---- single-entry operations: which (parent object, name) they act on ---------------- *)
 From PV Require Import RootM ProgTac OpsProofs.
 
-Lemma run_peq {A} s (p q : prog A) : peq p q -> forall t, run s t p = run s t q.
+Lemma run_peq {A} s rp (p q : prog A) : peq p q -> forall t, run s rp t p = run s rp t q.
 Proof.
   induction 1 as [a|c k k' _ IH|x|]; intro t; cbn [run]; try reflexivity.
-  destruct (answer s t c) as [t' r]. apply IH.
+  destruct (answer s rp t c) as [t' r]. apply IH.
 Qed.
 
 (* RootRef::resolve_parent + name on the emulated backend, on a static tree: the
    descriptor the *at call will be made on is open on exactly the object the pure
    walk of the prefix ends on; the name is path_split's last component *)
-Theorem parent_and_name_static s fz o2 pfuel gh ps df rs t root path dirp name :
-  fz <> 0%nat -> chk_static_ok s (check_current fz o2 pfuel gh) -> FSProofs.wf s df -> links_ok s ->
+Theorem parent_and_name_static s rp fz o2 pfuel gh ps df rs t root path dirp name :
+  fz <> 0%nat -> chk_static_ok s rp (check_current fz o2 pfuel gh) -> FSProofs.wf s df -> links_ok s ->
   rs_kernel rs = false ->
   path_split path = Some (Ok (dirp, Some name)) -> has_nul dirp = false ->
   tget t root = Some ROOT ->
   match FSModel.ewalk s dirp false (has (rs_flags rs) RESOLVE_NO_SYMLINKS) with
-  | FSModel.WOk o => exists t' fd, run s t (parent_and_name fz o2 pfuel gh ps rs root path) = Done t' (Ok (fd, name)) /\ tget t' fd = Some o
-  | FSModel.WErr n => exists t', run s t (parent_and_name fz o2 pfuel gh ps rs root path) = Done t' (Err (OsError n))
-  | FSModel.WBudget => exists t', run s t (parent_and_name fz o2 pfuel gh ps rs root path) = Done t' (Err (OsError ELOOP))
+  | FSModel.WOk o => exists t' fd, run s rp t (parent_and_name fz o2 pfuel gh ps rs root path) = Done t' (Ok (fd, name)) /\ tget t' fd = Some o
+  | FSModel.WErr n => exists t', run s rp t (parent_and_name fz o2 pfuel gh ps rs root path) = Done t' (Err (OsError n))
+  | FSModel.WBudget => exists t', run s rp t (parent_and_name fz o2 pfuel gh ps rs root path) = Done t' (Err (OsError ELOOP))
   end.
 Proof.
   intros Hfz Hchk Hwf Hl Hk Hsplit Hnul Hroot.
   pose proof (parent_and_name_shape fz o2 pfuel gh ps rs root path) as Hshape. rewrite Hsplit in Hshape.
   destruct Hshape as (Hpeq & _ & _).
-  rewrite (run_peq s _ _ Hpeq t). unfold bindR. rewrite (run_bind s).
+  rewrite (run_peq s rp _ _ Hpeq t). unfold bindR. rewrite (run_bind s rp).
   unfold r_resolve. rewrite Hk, resolve_is_gen.
-  pose proof (resolve_static s fz Hfz _ Hchk df Hwf Hl ps (has (rs_flags rs) RESOLVE_NO_SYMLINKS) false t root dirp Hroot Hnul) as H.
+  pose proof (resolve_static s rp fz Hfz _ Hchk df Hwf Hl ps (has (rs_flags rs) RESOLVE_NO_SYMLINKS) false t root dirp Hroot Hnul) as H.
   destruct (FSModel.ewalk s dirp false (has (rs_flags rs) RESOLVE_NO_SYMLINKS)) as [o|n|].
   - destruct H as (t' & fd & -> & Hfd). exists t', fd. split; [reflexivity|exact Hfd].
   - destruct H as (t' & ->). exists t'. reflexivity.
@@ -710,9 +720,9 @@ From PV Require Import CheckProofs.
 
 Definition names_ok (s : fs) : Prop := forall d n c, FSModel.lookup s d n = Some c -> name_ok n.
 
-Definition getpath_ok (s : fs) (rootcomps : list bytes) (g : Z -> prog (result bytes ekind)) : Prop :=
+Definition getpath_ok (s : fs) (rp : bytes) (rootcomps : list bytes) (g : Z -> prog (result bytes ekind)) : Prop :=
   forall t fd o exp, tget t fd = Some o -> FSModel.descend s ROOT exp = Some o ->
-    exists p, run s t (g fd) = Done t (Ok p) /\ is_abs p = true /\ nf p = rootcomps ++ exp.
+    exists p, run s rp t (g fd) = Done t (Ok p) /\ is_abs p = true /\ nf p = rootcomps ++ exp.
 
 Lemma descend_names s : names_ok s -> forall exp c o, FSModel.descend s c exp = Some o -> Forall name_ok exp.
 Proof.
@@ -740,8 +750,8 @@ Proof.
   rewrite Hn. apply list_beq_refl.
 Qed.
 
-Theorem check_current_static s rootcomps g :
-  names_ok s -> getpath_ok s rootcomps g -> chk_static_ok s (check_current_gen g).
+Theorem check_current_static s rp rootcomps g :
+  names_ok s -> getpath_ok s rp rootcomps g -> chk_static_ok s rp (check_current_gen g).
 Proof.
   intros Hnames Hg t cur root exp o Hroot Hcur Hexp.
   unfold check_current_gen, bindR.
